@@ -728,6 +728,43 @@ def rule_r3(chk, m, f, cfg, top, states, table):
                   nontrivial=True)
 
 
+def rule_unterminated(chk, m, f, cfg, top, states, table, rid):
+    """A string literal / quoted symbol that is still open when the text
+    ends is not a lexeme: no leaf is made of the fragment (every writer
+    appends a separator after a leaf, which the open literal swallows on
+    re-reading)."""
+    where = 'nodeio.parse_smtlib'
+    n = 0
+    bad = None
+    for key, paths in table.items():
+        if key[0] not in ('STRING', 'QUOTED'):
+            continue
+        # the delimiter itself may close the literal: not an open one
+        if key[1] == {'STRING': 'DQ', 'QUOTED': 'BAR'}[key[0]]:
+            continue
+        for p in paths:
+            eof = any(d == ('pos < size', False) for d in p['decisions'])
+            if not eof or p['end'] not in ('return', 'exit'):
+                continue
+            # the character just read did not close the literal
+            if not any(e.endswith('.append(char)') for e in p['events']):
+                continue
+            n += 1
+            if any('Node(' in e or e.startswith('yield ')
+                   for e in p['events']):
+                bad = bad or (key, p['events'])
+    chk.floor(rid, 'end-of-input paths inside a literal', n, 2)
+    chk.check(rid, where, 'an unterminated literal yields no leaf',
+              bad is None,
+              f'when the text ends inside a {bad[0][0].lower() if bad else ""}'
+              ' literal the fragment is made a leaf '
+              f'({[e for e in (bad[1] if bad else []) if "Node(" in e][:1]})'
+              ': the tree then holds a leaf that is not a token - every '
+              'rendering appends a separator which the open literal '
+              'swallows, so it parses back to a different leaf',
+              loc=m.loc(f), nontrivial=True)
+
+
 def rule_r4(chk, m, f, cfg, top, states, table):
     chk.rule('C08.R4', 'characters inside string literals, quoted symbols '
              'and comments never touch the structure')
